@@ -123,6 +123,10 @@ def make_survey(rng):
     data = np.zeros((ns, nr, nf), dtype=complex)
     for idx in np.ndindex(ns, nr, nf):
         data[idx] = dy(rng, -100, 100) + 1j*dy(rng, -100, 100)
+        if rng.integers(0, 3) == 0:
+            # amplitudes of the size of the noise floors (the amplitude cut of
+            # add_noise at half the noise floor must discriminate)
+            data[idx] = dy(rng, -7, 8, 32) + 1j*dy(rng, -7, 8, 32)
         if rng.integers(0, 5) == 0:
             data[idx] = np.nan + 1j*np.nan
     survey = emg3d.Survey(sources=srcs, receivers=recs, frequencies=freqs,
@@ -350,6 +354,32 @@ def corpus_checks(ctx):
         ctx.violation('size-one-array-parameter',
                       'noise_floor / relative_error of shape (1,1,1) on a '
                       '1x1x1 survey is not accepted', {'corpus': '1x1x1'})
+    # the documented amplitude cut: data below HALF the noise floor are set to
+    # NaN by add_noise(min_amplitude='half_nf') (the default), others kept
+    amp = np.array([0.2, 0.34, 0.45, 0.49, 0.51, 0.55, 0.9, 3.0]).reshape(2, 2, 2)
+    for nfl in (2.0, np.array([1.0, 4.0]).reshape(1, 1, 2),
+                np.arange(1, 9).reshape(2, 2, 2)/2.0):
+        nfa = np.broadcast_to(np.asarray(nfl, float), (2, 2, 2))
+        s2 = emg3d.Survey(
+            sources=[emg3d.TxElectricPoint((0, 0, 0, 0, 0)),
+                     emg3d.TxElectricPoint((5, 0, 0, 0, 0))],
+            receivers=[emg3d.RxElectricPoint((10, 0, 0, 0, 0)),
+                       emg3d.RxElectricPoint((20, 0, 0, 0, 0))],
+            frequencies=[1.0, 2.0], data=(amp*nfa)*np.exp(0.7j),
+            noise_floor=nfl)
+        for kw in (dict(), dict(min_amplitude='half_nf')):
+            s2.add_noise(add_to='cut', **kw)
+            got = np.isnan(s2.data['cut'].data)
+            if not np.array_equal(got, amp < 0.5):
+                ctx.violation(
+                    'amplitude-cut-not-at-half-noise-floor',
+                    f'add_noise({kw}) with noise_floor of shape '
+                    f'{np.shape(nfl)}: data at {amp.ravel().tolist()} x '
+                    f'noise floor are NaN at {got.ravel().astype(int).tolist()}'
+                    f', documented: below half the noise floor',
+                    {'corpus': 'half_nf cut', 'noise_floor_shape':
+                     list(np.shape(nfl))})
+                break
     # selection without restriction must not alias the original
     s3 = emg3d.Survey(
         sources=[emg3d.TxElectricPoint((0, 0, 0, 0, 0)),
